@@ -93,6 +93,10 @@ func runJob(idx int, tmp string, job Job) (res WorkerResult) {
 		} else {
 			cfg["rtspAuthMethods"] = []any{"basic", "digest"}
 		}
+		if job.World == "p" {
+			cfg["hlsTrustedProxies"] = []any{"127.0.0.1/32"}
+			cfg["webrtcTrustedProxies"] = []any{"127.0.0.1/32"}
+		}
 		cfg["paths"] = map[string]any{"a": map[string]any{}, "~^b(\\d+)$": map[string]any{}, "all_others": map[string]any{}}
 		fn, err := e2elib.WriteConf(dir, "mediamtx.yml", cfg)
 		if err != nil {
